@@ -207,6 +207,22 @@ theorem endBlock_flushed (st : State) (n : Nat) : Flushed (endBlock st n) := by
 theorem recKeyed_endBlock (cfg : Cfg) (st : State) (n : Nat) (hr : RecKeyed cfg st) : RecKeyed cfg (endBlock st n) :=
   recKeyed_of_live cfg st _ (endBlock_live st n) hr
 
+/-- The key cache write touches nothing but the key cache. -/
+theorem pkAfter_fields (tx : Tx) (r : String × State) :
+    (pkAfter tx r).1 = r.1 ∧ (pkAfter tx r).2.live = r.2.live ∧ (pkAfter tx r).2.trie = r.2.trie ∧
+    (pkAfter tx r).2.bal = r.2.bal ∧ (pkAfter tx r).2.pending = r.2.pending ∧ (pkAfter tx r).2.escrow = r.2.escrow ∧
+    (pkAfter tx r).2.code = r.2.code ∧ (pkAfter tx r).2.height = r.2.height := by
+  cases tx with
+  | apply src id typ stake acct pk vrf =>
+    simp only [pkAfter]
+    by_cases h : r.1 = "ok"
+    · rw [if_pos h]; exact ⟨rfl, rfl, rfl, rfl, rfl, rfl, rfl, rfl⟩
+    · rw [if_neg h]; exact ⟨rfl, rfl, rfl, rfl, rfl, rfl, rfl, rfl⟩
+  | add => exact ⟨rfl, rfl, rfl, rfl, rfl, rfl, rfl, rfl⟩
+  | refund => exact ⟨rfl, rfl, rfl, rfl, rfl, rfl, rfl, rfl⟩
+  | chacc => exact ⟨rfl, rfl, rfl, rfl, rfl, rfl, rfl, rfl⟩
+  | bad => exact ⟨rfl, rfl, rfl, rfl, rfl, rfl, rfl, rfl⟩
+
 def OpOK (cfg : Cfg) : Op → Prop
   | .tx t => TxOK cfg t
   | .endBlock _ => True
@@ -220,7 +236,8 @@ theorem recKeyed_run (cfg : Cfg) (st : State) (ops : List Op) (hc : CodecId cfg)
     apply ih
     · intro o' ho'; exact hok o' (List.mem_cons_of_mem _ ho')
     · cases o with
-      | tx t => exact recKeyed_runTx cfg st t hc hraw (hok _ (List.mem_cons_self ..)) hr
+      | tx t =>
+        exact recKeyed_of_live cfg _ _ (pkAfter_fields t _).2.1 (recKeyed_runTx cfg st t hc hraw (hok _ (List.mem_cons_self ..)) hr)
       | endBlock n => exact recKeyed_endBlock cfg st n hr
 
 theorem recKeyed_empty (cfg : Cfg) (st : State) (h : ∀ d, st.live d = []) : RecKeyed cfg st := by
